@@ -15,7 +15,13 @@ other than the root (multi-linked ports, order links, unlinked counted ports inc
 link (order links included).  Every history is also run on the store model (coq/model/Graph.v through
 coq/model/HugrHist.v): kind "hist" = Hugr(root_op) followed by a history (case CHist), kind "hugr" with
 mutations = the history applied to the builder program's HUGR, whose store state is rebuilt from the
-public queries (case CMut).  corr demands that the model's view after the history is exactly the dump."""
+public queries (case CMut).  corr demands that the model's view after the history is exactly the dump.
+
+Seeded round 2: histories also add a link that exists AGAIN (every kind; order links through the raw add_link on offset
+-1), serialize the HUGR in the middle (step "ser"; no call for the store model) and change the operation of an existing
+node in place through public attributes (step "edit_op"; such a case is judged as a HUGR, CHugr); a quarter of the builder
+programs are built with a serialization attempted after every statement (_Probing).  The dumps take the encoded operation
+from the operation object, not through NodeData (function dump below)."""
 from __future__ import annotations
 
 import copy
@@ -79,6 +85,32 @@ MUT_OPS = [["noop", "B"], ["not"], ["divmod"], ["mktup", ["B", "I"]], ["untup", 
            ["const", ["extnull"]], ["funcdecl", "poly.nat", "nat"], ["funcdecl", "poly.list", "listnat"]]
 
 
+# the widened stream of a generated case: 0 = as before, 1 = + parallel links of every kind and serializations in the
+# middle of the history, 2 = + operations changed in place
+WIDE_OF = (0, 0, 1, 2)
+
+
+class _Probing(progs._Interp):
+    """the interpreter of harness/progs.py, serializing the HUGR under construction after every statement and after every
+    completed region (the document, or the IncompleteOp exception, is dropped): builders complete operations in place
+    (set_outputs, Conditional / Cfg output propagation), so whatever a serialization remembers must not survive that"""
+
+    @staticmethod
+    def _probe(b):
+        try:
+            b.hugr.to_json()
+        except Exception:
+            pass
+
+    def stmt(self, b, st):
+        super().stmt(b, st)
+        self._probe(b)
+
+    def body(self, b, region, set_out):
+        super().body(b, region, set_out)
+        self._probe(b)
+
+
 def usable_seed(seed, root=None):
     """the generator of harness/progs.py occasionally emits a program its interpreter cannot run (a
     polymorphic function without a body); such seeds and HUGRs above the sampling bound are re-drawn"""
@@ -92,6 +124,9 @@ def usable_seed(seed, root=None):
 HIST_OPS = MUT_OPS + [["dfg", ["B"], ["B", "I"]], ["dfg", [], []], ["case", ["B"], ["B"]], ["input", ["B", "I"]],
                       ["output", ["B"]], ["module"]]
 HIST_ROOTS = [["module"], ["module"], ["dfg", ["B"], ["B"]], ["case", [], ["I"]]]
+# (seeded round 2) only in the palette of the widened cases, so that the stream of the others is the one of before:
+# operation attributes no builder sets by default (seeded C02-b: the extension delta of a DFG)
+WIDE_OPS = [["dfg", ["B"], ["B"], ["verif.ext", "a.b"]], ["dfg", [], ["I"], ["verif.ext"]]]
 
 
 def mk_mut_op(spec):
@@ -108,6 +143,8 @@ def mk_mut_op(spec):
                   "listnat": [tys.ListParam(tys.BoundedNatParam()), tys.TupleParam([tys.BoundedNatParam(), tys.BoundedNatParam(3)])]}[spec[2]]
         return ops.FuncDecl(spec[1], tys.PolyFuncType(params, tys.FunctionType([tys.Bool], [tys.Bool])))
     if k == "dfg":
+        if len(spec) > 3:       # with an extension delta (third constructor argument)
+            return ops.DFG([progs.mk_ty(t) for t in spec[1]], [progs.mk_ty(t) for t in spec[2]], list(spec[3]))
         return ops.DFG([progs.mk_ty(t) for t in spec[1]], [progs.mk_ty(t) for t in spec[2]])
     if k == "case":
         return ops.Case([progs.mk_ty(t) for t in spec[1]], [progs.mk_ty(t) for t in spec[2]])
@@ -205,6 +242,31 @@ def named_program(name):
                                 extension="verif.ext"), b)
         d.set_outputs(n)
         return d.hugr
+    if name == "func_const":                   # seeded C02-h: 0 Module, 1 FuncDefn f, 2 Input, 3 Output, 4 Const, 5 LoadConst
+        m = Module()
+        f = m.define_function("f", [tys.Bool])
+        (x,) = f.inputs()
+        c = f.load(val.Tuple(val.TRUE, val.FALSE))
+        f.set_outputs(x, c)
+        return m.hugr
+    if name == "ser_then_set_outputs":         # a builder completes operations in place AFTER the HUGR was serialized
+        def probe(h):
+            try:
+                h.to_json()
+            except Exception:                  # IncompleteOp while under construction
+                pass
+        d = Dfg(tys.Bool, INT_T)
+        b, i = d.inputs()
+        with d.add_nested(b, i) as inner:
+            x, y = inner.inputs()
+            probe(d.hugr)
+            inner.set_outputs(x)
+        probe(d.hugr)
+        d.set_outputs(inner[0])
+        d.hugr.to_json()                       # complete: 0 DFG, 1 Input, 2 Output, 3 DFG, 4 Input, 5 Output
+        inner.set_outputs(y, x)                # a second set_outputs: Output 5 and DFG 3 get other types in place
+        d.set_outputs(inner[1], b)             # ... and Output 2 and the root
+        return d.hugr
     if name == "cfg_delta":                    # D9: block with an extension delta
         c = Cfg(tys.Bool)
         with c.add_entry() as e:
@@ -213,6 +275,204 @@ def named_program(name):
         c.branch(e[0], c.exit)
         return c.hugr
     raise ValueError(name)
+
+
+# ----------------------------------------------------------------------------- the operations a HUGR holds NOW
+# (seeded round 2)  The dump of harness/hobs.py encodes a node's operation through NodeData._to_serial, the very call
+# Hugr._to_serial makes: anything remembered there (a per-node cache of the encoded operation) is then shared by the
+# observation and the document, and the harness's own calls overwrite it.  The encoded form of "the operation on the
+# node" is therefore taken from the operation object itself (<Op>._to_serial), and for a node whose operation the
+# history changed in place through public attributes it is the encoding of a FRESH object holding the assigned value
+# (computed by the harness before the change), so that something remembered inside the operation object is seen too.
+
+
+def _encode_op(op, idx):
+    from hugr._serialization.ops import OpType as SerialOp
+    from hugr.hugr.node_port import Node
+    return json.loads(SerialOp(root=op._to_serial(Node(idx))).model_dump_json())
+
+
+def op_direct(h, n):
+    """the encoded form of the node's operation (parent field = the node itself, as hobs.op_serial writes it)"""
+    try:
+        return _encode_op(h[n].op, n.idx)
+    except Exception as e:  # IncompleteOp etc.
+        return {"error": type(e).__name__}
+
+
+def expected_ops(h):
+    """{node index: encoded operation} for the nodes whose operation a history changed in place (edit_op)"""
+    return h.__dict__.setdefault("_verif_expected_ops", {})
+
+
+def dump(h):
+    d = hobs.dump(h, with_ops=False)
+    live = {n.idx: n for n in h}
+    exp = expected_ops(h)
+    for nd in d["nodes"]:
+        o = op_direct(h, live[nd["idx"]])
+        e = exp.get(nd["idx"])
+        if e is not None and "error" not in o and opcode(o) != opcode(e):
+            # the operation object does not show the value assigned to its public attribute
+            o = {**e, "parent": nd["idx"]}
+        nd["op"] = o
+    return d
+
+
+# In-place changes of an operation through its public attributes: (attribute path, kind of value).  An integer in a path
+# is a list index chosen among the existing elements: elements are REPLACED, never appended or changed themselves, and
+# the path only passes through objects a builder / mk_mut_op makes afresh per operation (shared constants such as
+# tys.Bool, val.TRUE, a std extension's type are never written to: their lists are empty or not on a path).
+EDITS = {
+    "FuncDefn": [(["f_name"], "str"), (["inputs", 0], "ty")],
+    "FuncDecl": [(["f_name"], "str"), (["signature", "body", "input", 0], "ty")],
+    "Const": [(["val"], "val"), (["val", "vals", 0], "val")],
+    # (ops.Custom is a frozen dataclass: only what it refers to can change)
+    # (so is tys.FunctionType: only the elements of its rows)
+    "Custom": [(["signature", "input", 0], "ty"), (["signature", "output", 0], "ty")],
+    "Tag": [(["tag"], "int"), (["sum_ty", "variant_rows", 0, 0], "ty")],
+    "Input": [(["types", 0], "ty")],
+    "DFG": [(["inputs", 0], "ty")],
+    "Case": [(["inputs", 0], "ty")],
+    "TailLoop": [(["rest", 0], "ty"), (["just_inputs", 0], "ty")],
+    "Conditional": [(["other_inputs", 0], "ty")],
+    "DataflowBlock": [(["extension_delta"], "strs"), (["inputs", 0], "ty")],
+    "AliasDecl": [(["alias"], "str")],
+}
+EDIT_VALUES = {
+    "str": [["str", "renamed"], ["str", ""], ["str", "ü.name"], ["str", "f"]],
+    "val": [["val", ["false"]], ["val", ["true"]], ["val", ["int", 5, 9]], ["val", ["tuple", [["false"], ["int", 3, 1]]]],
+            ["val", ["tuple", []]]],
+    "ty": [["ty", "I"], ["ty", "B"], ["ty", "U"], ["ty", ["tup", ["B", "I"]]], ["ty", "Q"]],
+    "strs": [["strs", ["verif.ext"]], ["strs", []], ["strs", ["a.b", "verif.ext"]]],
+}
+# exact classes an edit path may pass through below the operation (never a subclass standing for a shared constant)
+_EDIT_THROUGH = ("FunctionType", "PolyFuncType", "Sum", "Tuple", "Some", "Left", "Right")
+
+
+def mk_edit_value(v):
+    from hugr import tys
+    k = v[0]
+    if k == "str":
+        return v[1]
+    if k == "val":
+        return progs.mk_val(v[1])
+    if k == "ty":
+        return progs.mk_ty(v[1])
+    if k == "int":
+        return v[1]
+    if k == "strs":
+        return list(v[1])
+    raise ValueError(v)
+
+
+def _edit_template_ok(op, path, v):
+    """the path instantiates a template of EDITS for the operation's class, with a value of the template's kind"""
+    for tpath, kind in EDITS.get(type(op).__name__, []):
+        if len(tpath) == len(path) and kind == v[0] and \
+                all((isinstance(a, int) and isinstance(b, int) and b >= 0) or (a == b and not isinstance(b, int))
+                    for a, b in zip(tpath, path)):
+            return True
+    return False
+
+
+def _walk(obj, path):
+    """-> the objects along the path (obj first; the last entry is the container of the final step), or None"""
+    import dataclasses
+    chain = [obj]
+    for step in path[:-1]:
+        cur = chain[-1]
+        if isinstance(step, int):
+            if not isinstance(cur, list) or step >= len(cur):
+                return None
+            nxt = cur[step]
+        else:
+            if not dataclasses.is_dataclass(cur) or step.startswith("_") or not hasattr(cur, step):
+                return None
+            nxt = getattr(cur, step)
+        if not isinstance(nxt, list) and type(nxt).__name__ not in _EDIT_THROUGH:
+            return None
+        chain.append(nxt)
+    last, cur = path[-1], chain[-1]
+    if isinstance(last, int):
+        if not isinstance(cur, list) or last >= len(cur):
+            return None
+    elif not dataclasses.is_dataclass(cur) or last.startswith("_") or not hasattr(cur, last):
+        return None
+    return chain
+
+
+def _fresh_with(obj, path, value):
+    """a new object equal to obj with the value at the path replaced: shallow copies along the path, keeping only the
+    dataclass fields (whatever else an object remembers in its __dict__ is not copied)"""
+    import dataclasses
+    if not path:
+        return value
+    step = path[0]
+    if isinstance(step, int):
+        c = list(obj)
+        c[step] = _fresh_with(obj[step], path[1:], value)
+        return c
+    c = copy.copy(obj)
+    names = {f.name for f in dataclasses.fields(c)}
+    for k in list(getattr(c, "__dict__", {})):
+        if k not in names:
+            del c.__dict__[k]
+    object.__setattr__(c, step, _fresh_with(getattr(obj, step), path[1:], value))      # (the copy may be frozen)
+    return c
+
+
+def edit_in_place(h, n, path, v):
+    """h[n].op.<path> = value, through public attributes / list items of the object the node holds.
+    -> False if not applicable (no such path on this operation, or the value there is already equal)"""
+    import dataclasses
+    op = h[n].op
+    if not _edit_template_ok(op, path, v):
+        return False
+    chain = _walk(op, path)
+    if chain is None:
+        return False
+    value = mk_edit_value(v)
+    last, cont = path[-1], chain[-1]
+    old = cont[last] if isinstance(last, int) else getattr(cont, last)
+    if old == value:
+        return False
+    try:
+        expected = _encode_op(_fresh_with(op, path, mk_edit_value(v)), n.idx)
+    except Exception:
+        return False            # the changed operation has no encoded form: outside the property
+    if isinstance(last, int):
+        cont[last] = value
+    else:
+        try:
+            setattr(cont, last, value)
+        except dataclasses.FrozenInstanceError:
+            return False        # not a change the public API allows
+    # What a node shows is read off the objects themselves (op_direct).  For the node edited LAST the harness also knows
+    # the encoding from the fresh copy; earlier expectations are dropped: a list changed now may be shared with the
+    # operation of another node (a builder hands the same row to Input and to its parent), which then changes too.
+    exp = expected_ops(h)
+    exp.clear()
+    exp[n.idx] = expected
+    return True
+
+
+def serialise_now(h, how):
+    """an observation in the middle of a history: the HUGR is serialized (and the result dropped)"""
+    import warnings
+    from hugr.hugr import Hugr
+    try:
+        if how == "load":
+            Hugr.load_json(h.to_json())
+        elif how == "pkg":
+            from hugr.package import Package
+            with warnings.catch_warnings():
+                warnings.simplefilter("ignore")
+                Package([h]).to_json()
+        else:
+            h.to_json()
+    except Exception:
+        pass        # whether THIS state serializes is judged where it is the final state of a case
 
 
 def port_links(h, port):
@@ -259,6 +519,17 @@ def apply_mut(h, m):
         _, n, key, v = m
         if n in live:
             call = lambda: h[live[n]].metadata.__setitem__(key, copy.deepcopy(v))
+    elif k == "ser":
+        # an observation in the middle of the history (seeded round 2); never counts as a failed call
+        call = lambda: serialise_now(h, m[1])
+    elif k == "edit_op":
+        _, n, path, v = m
+        if n in live:
+            try:
+                done = edit_in_place(h, live[n], path, v)
+            except Exception as e:
+                return type(e).__name__, m
+            return ("ok", m) if done else (None, m)
     elif k == "insert":
         _, rootspec, src, parent = m
         if parent is None or parent in live:      # parent None: insert_hugr's documented default, below the root
@@ -274,6 +545,8 @@ def apply_mut(h, m):
         call()
     except Exception as e:
         return type(e).__name__, m
+    if k == "delete_node":
+        expected_ops(h).pop(m[1], None)
     return "ok", m
 
 
@@ -290,13 +563,67 @@ def run_muts(h, muts):
 
 def port_counts(h, n):
     """reader's-contract port counts of a live node (None when its op cannot be encoded)"""
-    o = hobs.op_serial(h, n)
+    o = op_direct(h, n)
     if "error" in o:
         return None
     return reader_ports(o)
 
 
-def gen_muts(rng, h, n, off_port=False, reuse=False, palette=None, inserts=False, src_only=False):
+def gen_wide(rng, h, nodes, pcs_of, wide, off_port):
+    """(seeded round 2) one step of the widened stream: a link of ANY kind a second (third ...) time between the same
+    pair of ports -- order links included, which only the raw add_link on offset -1 can double, add_order_link skips an
+    existing one --, a serialization in the middle of the history, or (wide >= 2) a change of an existing node's
+    operation in place through its public attributes"""
+    r = rng.random()
+    if r < (0.4 if wide < 2 else 0.3):
+        ls = list(h.links())
+        orders = [l for l in ls if l[0].offset == -1 and l[1].offset == -1]
+        if ls and rng.random() < 0.8:
+            s_, t_ = rng.choice(orders if orders and rng.random() < 0.5 else ls)
+            return ["add_link", s_.node.idx, s_.offset, t_.node.idx, t_.offset]
+        pcs = pcs_of(nodes)
+        ok = [x for x in nodes if (pcs[x] and pcs[x][0]) or off_port]
+        if len(ok) >= 2:
+            x, y = rng.sample(ok, 2)
+            return ["add_link", x.idx, -1, y.idx, -1]       # an order link through the raw call
+        return None
+    if r < 0.55 or wide < 2:
+        return ["ser", rng.choice(["json", "json", "load", "pkg"])]
+    cands = [x for x in nodes if type(h[x].op).__name__ in EDITS]
+    rng.shuffle(cands)
+    for x in cands[:4]:
+        tpath, kind = rng.choice(EDITS[type(h[x].op).__name__])
+        # list indices: an existing element of the list the path reaches
+        path, cur, ok = [], h[x].op, True
+        for step in tpath:
+            if isinstance(step, int):
+                if not isinstance(cur, list) or not cur:
+                    ok = False
+                    break
+                step = rng.randrange(len(cur))
+                cur = cur[step]
+            else:
+                if not hasattr(cur, step):
+                    ok = False
+                    break
+                cur = getattr(cur, step)
+            path.append(step)
+        if not ok:
+            continue
+        if kind == "int":
+            # another variant with as many fields (the input ports the links of the node use stay)
+            rows = h[x].op.sum_ty.variant_rows
+            same = [i for i, row in enumerate(rows) if i != cur and 0 <= cur < len(rows) and len(row) == len(rows[cur])]
+            if not same:
+                continue
+            v = ["int", rng.choice(same)]
+        else:
+            v = rng.choice(EDIT_VALUES[kind])
+        return ["edit_op", x.idx, path, v]
+    return ["ser", "json"]
+
+
+def gen_muts(rng, h, n, off_port=False, reuse=False, palette=None, inserts=False, src_only=False, wide=0):
     """Generates (and applies to h) up to n mutations; -> (mutations applied, outcome of each).  Links are added on
     ports the operations have (unless off_port) so that the premise of C03's addressing clause holds.  Unless
     `reuse`, no node is added once a node has been deleted (histories without index reuse).  delete_node picks any
@@ -318,6 +645,18 @@ def gen_muts(rng, h, n, off_port=False, reuse=False, palette=None, inserts=False
 
     for _ in range(n):
         nodes = list(h)
+        if wide and rng.random() < 0.35:         # (no draw when wide = 0: the stream of the other cases is unchanged)
+            m = gen_wide(rng, h, nodes, pcs_of, wide, off_port)
+            if src_only and m is not None and m[0] != "add_link":
+                m = None                         # the HUGR given to insert_hugr: parallel links only
+            if m is not None:
+                res, m = apply_mut(h, m)
+                if res is not None:
+                    muts.append(m)
+                    rets.append(res)
+                    if m[0] == "edit_op":
+                        pc_cache.clear()         # the port counts of the node (and of a node sharing the row) changed
+            continue
         r = rng.random()
         m = None
         if inserts and r < 0.06:
@@ -326,7 +665,8 @@ def gen_muts(rng, h, n, off_port=False, reuse=False, palette=None, inserts=False
             # insert_hugr of a HUGR built by its own raw history (without index reuse, links on existing ports)
             from hugr.hugr import Hugr
             rootspec = rng.choice(HIST_ROOTS[2:] + [["dfg", [], []]])
-            src, _ = gen_muts(rng, Hugr(mk_mut_op(rootspec)), rng.randint(1, 8), palette=palette, src_only=True)
+            src, _ = gen_muts(rng, Hugr(mk_mut_op(rootspec)), rng.randint(1, 8), palette=palette, src_only=True,
+                              wide=1 if wide else 0)
             containers = [x for x in nodes if h.children(x) or x == h.root]
             m = ["insert", rootspec, src, rng.choice(containers if containers and rng.random() < 0.7 else nodes).idx]
             if m[3] == h.root.idx and len(src) % 2 == 0:
@@ -417,7 +757,7 @@ def store_snapshot(h):
     the sub-offsets of its two ports (its position in linked_ports of either end).  None when the HUGR has
     deleted nodes (the free stack is not observable), an incomplete operation, or two links between the same
     pair of ports (their sub-offsets cannot be told apart)."""
-    d = hobs.dump(h)
+    d = dump(h)
     idxs = [n["idx"] for n in d["nodes"]]
     if idxs != list(range(len(idxs))) or any("error" in n["op"] for n in d["nodes"]):
         return None
@@ -586,7 +926,7 @@ def observe_hugr(h, ctx, schema=True):
     if bad:
         # (first pass: skipped.)  With D4-D6 repaired this is not expected; the case goes on and is judged
         o["inconsistent"] = bad
-    o["a"] = hobs.dump(h)
+    o["a"] = dump(h)
     if any("error" in n["op"] for n in o["a"]["nodes"]):
         return {"skip": "incomplete operation"}
     try:
@@ -612,7 +952,7 @@ def observe_hugr(h, ctx, schema=True):
     except Exception as e:
         o["load_error"] = type(e).__name__
         return o
-    o["b"] = hobs.dump(h2)
+    o["b"] = dump(h2)
     try:
         # the links every port shows through linked_ports, before and after (nodes renumbered by rank)
         rank = {n["idx"]: k for k, n in enumerate(o["a"]["nodes"])}
@@ -725,6 +1065,8 @@ class Lit:
                     sh["nodes"].pop(m[1], None)
             elif k == "delete_link":
                 out.append("(%s %d %s %d %s)" % (DL, m[1], fw.gZ(m[2]), m[3], fw.gZ(m[4])))
+            elif k == "ser":
+                continue            # a serialization is no call of the store model: it must leave the state alone
             elif k == "set_md":
                 _, n, key, v = m
                 cur = sh["nodes"].setdefault(n, [{}, None])[0]
@@ -749,7 +1091,7 @@ class Lit:
                             sh["nodes"][mapping[c]] = [dict(bsh["nodes"][c][0]), parent if bp is None else mapping.get(bp)]
             else:
                 raise ValueError(m)
-        return glist(out), glist(gbool(r == "ok") for r in rets), sh
+        return glist(out), glist(gbool(r == "ok") for m, r in zip(applied, rets) if m[0] != "ser"), sh
 
     def store(self, start):
         d = start["dump"]
@@ -926,6 +1268,39 @@ class RT(fw.Prop):
             {"kind": "hist", "root": ["dfg", ["B"], ["B"]], "muts": [
                 ["add_node", ["input", ["B"]], 0, None, None], ["add_node", ["tag", 5, ["sum", [["B"]]]], 0, {"k": 1}, None],
                 ["add_link", 1, 0, 2, 0]]},
+            # seeded C02-g: the SAME link several times (a multiset): only the raw add_link on offset -1 doubles an order
+            # link (add_order_link skips an existing one); the reload must not go through a call that skips
+            P("bool_id", [["add_link", 1, -1, 2, -1], ["add_link", 1, -1, 2, -1]]),
+            P("order", [["add_link", 3, -1, 4, -1]]),
+            {"kind": "hist", "root": ["dfg", ["B"], ["B"]], "muts": [
+                ["add_node", ["input", ["B"]], 0, None, None], ["add_node", ["output", ["B"]], 0, None, None],
+                ["add_node", ["not"], 0, None, None], ["add_link", 1, 0, 3, 0], ["add_link", 1, 0, 3, 0],
+                ["add_order", 1, 3], ["add_link", 1, -1, 3, -1], ["add_link", 1, -1, 3, -1], ["add_link", 3, 0, 2, 0],
+                ["add_link", 3, 0, 2, 0], ["add_link", 3, 0, 2, 0], ["delete_link", 1, -1, 3, -1]]},
+            # seeded C02-h: serialize, change an existing operation in place through its public attributes, round trip:
+            # the document shows the operations the HUGR holds NOW (renamed function, changed constant - whole value and
+            # one element of a tuple -, the root, after a deletion that keeps the parent's index, builder completion)
+            P("func_const", [["ser", "json"], ["edit_op", 1, ["f_name"], ["str", "renamed"]],
+                             ["edit_op", 4, ["val"], ["val", ["false"]]]]),
+            P("func_const", [["ser", "load"], ["edit_op", 4, ["val", "vals", 1], ["val", ["int", 5, 9]]]]),
+            P("bool_id", [["ser", "json"], ["edit_op", 0, ["inputs", 0], ["ty", "I"]]]),
+            P("custom_desc", [["ser", "pkg"], ["edit_op", 3, ["signature", "input", 0], ["ty", "I"]], ["ser", "json"],
+                              ["edit_op", 3, ["signature", "output", 0], ["ty", "U"]]]),
+            {"kind": "hist", "root": ["module"], "muts": [
+                ["add_node", ["const", ["true"]], 0, None, None], ["add_node", ["funcdecl", "poly.nat", "nat"], 0, {"k": 1}, None],
+                ["add_node", ["const", ["tuple", [["true"], ["false"]]]], 0, None, None], ["ser", "json"], ["delete_node", 1],
+                ["edit_op", 3, ["val", "vals", 0], ["val", ["false"]]], ["edit_op", 2, ["f_name"], ["str", ""]],
+                ["set_md", 3, "k", [0]], ["ser", "json"], ["edit_op", 3, ["val"], ["val", ["int", 5, 9]]]]},
+            {"kind": "hist", "root": ["dfg", ["B"], ["B"]], "muts": [
+                ["add_node", ["input", ["B"]], 0, None, None], ["add_node", ["tag", 1, ["sum", [["B"], ["B"]]]], 0, None, None],
+                ["add_link", 1, 0, 2, 0], ["ser", "json"], ["edit_op", 2, ["tag"], ["int", 0]],
+                ["edit_op", 2, ["sum_ty", "variant_rows", 1, 0], ["ty", "I"]], ["edit_op", 1, ["types", 0], ["ty", "U"]]]},
+            P("ser_then_set_outputs"),
+            # seeded C02-b: the extension delta of a DFG (root and nested) is an attribute of the operation
+            {"kind": "hist", "root": ["dfg", ["B"], ["B"], ["verif.ext"]], "muts": [
+                ["add_node", ["input", ["B"]], 0, None, None], ["add_node", ["output", ["B"]], 0, None, None],
+                ["add_node", ["dfg", ["B"], ["B"], ["verif.ext", "a.b"]], 0, {"k": 0}, None], ["add_link", 1, 0, 3, 0],
+                ["add_link", 3, 0, 2, 0]]},
             {"kind": "pkg", "progs": ["poly_func", "two_consts"], "ext": True},
             {"kind": "ext", "which": "custom"},
             # a lowering HUGR inside an extension must be a wire-format document (FixedHugr, fixed c8729f5);
@@ -941,6 +1316,7 @@ class RT(fw.Prop):
             r = rng.random()
             cases.append({"kind": "hist", "root": rng.choice(HIST_ROOTS), "nmuts": rng.randint(3, 30),
                           "mseed": rng.randrange(1 << 30), "reuse": r > 0.85, "off_port": 0.75 < r <= 0.85})
+            cases[-1]["wide"] = WIDE_OF[cases[-1]["mseed"] % 4]
         for i in range(n):
             r = rng.random()
             seed = rng.randrange(1 << 30)
@@ -963,6 +1339,9 @@ class RT(fw.Prop):
                     seed = rng.randrange(1 << 30)
                 cases.append({"kind": "hugr", "seed": seed, "nmuts": nm, "mseed": rng.randrange(1 << 30),
                               "reuse": reuse, "off_port": off})
+                # (seeded round 2; decided by the numbers already drawn, so that the sequence of cases is the one of before)
+                cases[-1]["wide"] = WIDE_OF[cases[-1]["mseed"] % 4]
+                cases[-1]["probe"] = seed % 4 == 0
         return cases
 
     def program(self, case):
@@ -973,7 +1352,10 @@ class RT(fw.Prop):
         if "prog" in case:
             return named_program(case["prog"])
         kw = {k: case[k] for k in ("size", "max_depth") if k in case}
-        return progs.run(progs.gen_program(random.Random(case["seed"]), case.get("root"), **kw)).hugr
+        prog = progs.gen_program(random.Random(case["seed"]), case.get("root"), **kw)
+        if case.get("probe"):
+            return _Probing().root(prog).hugr
+        return progs.run(prog).hugr
 
     def mutate(self, h, case):
         """-> (mutations applied, outcome of each)"""
@@ -981,7 +1363,9 @@ class RT(fw.Prop):
             return run_muts(h, copy.deepcopy(case["muts"]))
         hist = case["kind"] == "hist"
         return gen_muts(random.Random(case["mseed"]), h, case["nmuts"], off_port=case.get("off_port", False),
-                        reuse=case.get("reuse", False), palette=HIST_OPS if hist else MUT_OPS, inserts=True)
+                        reuse=case.get("reuse", False),
+                        palette=(HIST_OPS if hist else MUT_OPS) + (WIDE_OPS if case.get("wide") else []), inserts=True,
+                        wide=case.get("wide", 0))
 
     def build(self, case):
         """-> (hugr, mutations applied)"""
@@ -1058,6 +1442,11 @@ class RT(fw.Prop):
             ctx.stats["skipped_incomplete_operation"] += 1
             return TRIVIAL
         k = case["kind"]
+        if k in ("hist", "hugr") and any(m[0] == "edit_op" for m in obs.get("muts", [])):
+            # an operation changed in place is no call of the store model (coq/model/HugrHist.v): the final HUGR is judged
+            # as a HUGR (round-trip correspondence and monitor), the history is not tied
+            ctx.stats["histories_with_in_place_edits_not_tied"] = ctx.stats.get("histories_with_in_place_edits_not_tied", 0) + 1
+            return "(CHugr %s)" % L.rt(obs)
         if k == "hist":
             cs, rets, _ = L.cmds({0: [{}, None]}, obs["muts"], obs["rets"])
             ctx.stats["histories_tied_to_the_store_model"] = ctx.stats.get("histories_tied_to_the_store_model", 0) + 1
@@ -1204,7 +1593,7 @@ class RT(fw.Prop):
         if case["kind"] not in ("hugr", "hist") or "muts" in case:
             return case
         _, applied = self.build(case)
-        c = {k: v for k, v in case.items() if k not in ("nmuts", "mseed", "reuse", "off_port")}
+        c = {k: v for k, v in case.items() if k not in ("nmuts", "mseed", "reuse", "off_port", "wide")}
         c["muts"] = applied
         return c
 
@@ -1258,14 +1647,14 @@ class RT(fw.Prop):
         if case["kind"] == "hist":
             for k in range(60):
                 yield {"kind": "hist", "root": case["root"], "nmuts": rng.randint(2, 25), "mseed": rng.randrange(1 << 30),
-                       "reuse": False, "off_port": False}
+                       "reuse": False, "off_port": False, "wide": case.get("wide", 0)}
             return
         if case["kind"] != "hugr":
             return
         for k in range(40):
             if "seed" in case:
                 yield {"kind": "hugr", "seed": case["seed"], "nmuts": rng.randint(0, 10), "mseed": rng.randrange(1 << 30),
-                       "reuse": False, "off_port": False}
+                       "reuse": False, "off_port": False, "wide": case.get("wide", 0), "probe": case.get("probe", False)}
             else:
                 c = self._explicit(case)
                 yield {**c, "muts": c["muts"] + [["set_md", 0, "k", rng.choice(MD_VALUES)]]}
@@ -1275,7 +1664,9 @@ class RT(fw.Prop):
 
     def distribution(self, cases, observations):
         d = {"kinds": {}, "nodes": [], "mutations": {}, "with_holes": 0, "with_metadata": 0, "with_order_links": 0,
-             "guard_broken": {}, "skipped": 0, "load_errors": {}, "schema_failures": 0}
+             "guard_broken": {}, "skipped": 0, "load_errors": {}, "schema_failures": 0, "with_parallel_links": 0,
+             "with_parallel_order_links": 0, "serialized_mid_history": 0, "op_changed_in_place_after_serialization": 0,
+             "built_with_serialization_after_every_statement": 0}
         for c, o in zip(cases, observations):
             d["kinds"][c["kind"]] = d["kinds"].get(c["kind"], 0) + 1
             if "skip" in o:
@@ -1292,6 +1683,16 @@ class RT(fw.Prop):
             d["with_order_links"] += any(l[1] == -1 for l in a["links"])
             for m in o.get("muts", []):
                 d["mutations"][m[0]] = d["mutations"].get(m[0], 0) + 1
+            # (seeded round 2) the same link more than once; an operation changed in place after a serialization
+            mult = {}
+            for l in a["links"]:
+                mult[tuple(l)] = mult.get(tuple(l), 0) + 1
+            d["with_parallel_links"] += any(v > 1 for v in mult.values())
+            d["with_parallel_order_links"] += any(v > 1 and l[1] == -1 for l, v in mult.items())
+            ks = [m[0] for m in o.get("muts", [])]
+            d["serialized_mid_history"] += "ser" in ks
+            d["op_changed_in_place_after_serialization"] += "ser" in ks and "edit_op" in ks[ks.index("ser"):]
+            d["built_with_serialization_after_every_statement"] += bool(c.get("probe"))
             for g in classify_guard(a):
                 d["guard_broken"][g] = d["guard_broken"].get(g, 0) + 1
             if "load_error" in o:
